@@ -24,6 +24,27 @@ fn main() {
                 Err(e) => println!("error: {e}"),
             }
         }
+        Some("solver") => {
+            use cedar_policy::{Policy, Schema};
+            use cedar_policy_symcc::{solver::LocalSolver, CedarSymCompiler, CompiledPolicy};
+            let schema = Schema::from_cedarschema_str(r#"entity U { n: Long, m?: U }; entity R; action a appliesTo { principal: U, resource: R, context: { x: Long } };"#).unwrap().0;
+            let rt = tokio::runtime::Builder::new_current_thread().enable_all().build().unwrap();
+            rt.block_on(async {
+                let solver = LocalSolver::cvc5().expect("spawn cvc5");
+                let mut sc = CedarSymCompiler::new(solver).unwrap();
+                for env in schema.request_envs() {
+                    for src in [r#"permit(principal, action, resource) when { principal.n + context.x > 3 };"#, r#"permit(principal, action, resource) when { principal.n > 3 || context.x < 2 };"#, r#"permit(principal, action, resource) when { principal has m && principal.m.n == 1 };"#] {
+                        let p = Policy::from_str(src).unwrap();
+                        let cp = CompiledPolicy::compile(&p, &env, &schema).unwrap();
+                        let t0 = std::time::Instant::now();
+                        let r = sc.check_never_errors_with_counterexample_opt(&cp).await;
+                        println!("{src}\n  never_errors cex: {:?} ({:?})", r.map(|o| o.map(|e| e.to_string())), t0.elapsed());
+                        let r = sc.check_always_matches_with_counterexample_opt(&cp).await;
+                        println!("  always_matches cex: {:?}", r.map(|o| o.map(|e| e.to_string())));
+                    }
+                }
+            });
+        }
         _ => eprintln!("usage: probe expr <text> | manifest <schema> <policies>"),
     }
 }
